@@ -216,12 +216,22 @@ def t_datamsg():
             iff("x", "mod2", 1, [op("errorf", text="odd", var="x")])]
 
 
+def t_sm_hard():
+    # a state machine with an action whose first draw comes from a Filter that often runs out of tries (the action then counts as skipped,
+    # although bits were consumed), followed by more draws and the failure
+    return [op("setvar", var="n", val="0"),
+            op("repeat", actions={"hard": [draw(g("Filter", elem=IntRange(0, 20), pred="rare"), "f"), op("incvar", var="n")],
+                                  "easy": [draw(g("Bool"), "b"), op("incvar", var="n")],
+                                  "hardc": [draw(g("Custom", elem=g("Int8"), body=[draw(g("Filter", elem=IntRange(0, 20), pred="rare"), "cf")]), "c")]}),
+            draw(g("Int16"), "t", "t"), draw(g("SliceOf", elem=g("Byte")), "tail"), iff("t", "ge", 50, [op("fatalf", site=1)])]
+
+
 def t_filter_panics():
     return [draw(g("Int8"), "p"), draw(g("Filter", elem=IntRange(0, 1000), pred="boom"), "f"), draw(g("SliceOf", elem=g("Byte")), "tail")]
 
 
 TEMPLATES = {
-    "custom_fatal": t_custom_fatal, "filter_panics": t_filter_panics, "cleanup_fatal": t_cleanup_fatal, "datamsg": t_datamsg,
+    "custom_fatal": t_custom_fatal, "filter_panics": t_filter_panics, "cleanup_fatal": t_cleanup_fatal, "datamsg": t_datamsg, "sm_hard": t_sm_hard,
     "custom_hard": t_custom_hard,
     "makemap": t_makemap, "custom_empty": t_custom_empty, "sm2": t_sm2, "cleanup_skip_errorf": t_cleanup_skip_errorf, "regexp_retry": t_regexp_retry,
     "ctx": t_ctx,
@@ -251,7 +261,7 @@ def c01(tier, seed):
     out = []
     # rejection-based generators with minimization cut at once: the reported case is the pruned original,
     # which must replay (forced stops, duplicate keys, over-long strings, skipped actions)
-    for tn in ("distinct", "map", "string", "sm", "custom", "filter", "makemap", "regexp_retry", "sm2", "custom_hard", "custom_fatal", "filter_panics"):
+    for tn in ("distinct", "map", "string", "sm", "custom", "filter", "makemap", "regexp_retry", "sm2", "custom_hard", "custom_fatal", "filter_panics", "sm_hard"):
         for sd in seeds(rng, (14 if tn != "custom_hard" else 70) if tier == "quick" else 150):
             out.append(scenario("c01-pruned-%s-%d-%d" % (tn, sd, len(out)), {"body": TEMPLATES[tn]()},
                                 {"checks": 100, "seed": sd, "nofailfile": "true", "shrinktime": "0s"}, tag={"template": tn, "shrink": "0s"}))
@@ -611,7 +621,7 @@ def c05(tier, seed):
     out = []
     n = 12 if tier == "quick" else 300
     tmpl = ["multisite", "errorf_then_panic", "threshold", "distinct", "map", "filter", "sm", "string", "custom", "sampled", "nonfatal",
-            "makemap", "custom_empty", "regexp_retry", "sm2", "cleanup_skip_errorf", "custom_hard", "custom_fatal", "filter_panics", "cleanup_fatal", "datamsg"]
+            "makemap", "custom_empty", "regexp_retry", "sm2", "cleanup_skip_errorf", "custom_hard", "custom_fatal", "filter_panics", "cleanup_fatal", "datamsg", "sm_hard"]
     for i in range(n):
         for tn in tmpl:
             if tier == "quick" and i >= 4 and tn not in ("multisite", "errorf_then_panic", "distinct", "makemap", "custom_empty", "custom_hard", "cleanup_fatal", "datamsg"):
@@ -746,6 +756,8 @@ def sm_action(kind, rng):
         return [op("incvar", var="f"), iff("f", "ge", j, [op(rng.choice(["fatalf", "panic", "failnow"]), site=1)]), draw(g("Bool"), "v")]
     if kind == "nonfatal":
         return [op("incvar", var="e"), draw(g("Bool"), "v"), iff("e", "ge", j, [op(rng.choice(["errorf", "fail"]), text="nf")])]
+    if kind == "hardfilter":   # the first draw comes from a Filter that often gives up: the action is abandoned inside the draw (a rejected step, not a failure)
+        return [draw(g("Filter", elem=IntRange(0, 20), pred="rare"), "hf"), draw(g("Bool"), "v"), op("incvar", var="n")]
     if kind == "fatal_recovered":   # a fatal failure whose panic the action's own code swallows: the machine must stop all the same
         return [op("incvar", var="f"), draw(g("Bool"), "v"), iff("f", "ge", j, [op("recover", body=[op(rng.choice(["fatalf", "failnow"]), site=1)])])]
     if kind == "nonfatal_custom":   # a non-fatal failure, then a successful Custom draw in the same action
@@ -756,15 +768,15 @@ def sm_action(kind, rng):
 def c08(tier, seed):
     rng = random.Random(seed)
     out = []
-    kinds = ["ok", "ok2", "skipbefore", "skipafter", "alwaysskip", "alwaysskipafter", "fatal", "nonfatal", "nonfatal_custom", "fatal_recovered"]
-    n = 80 if tier == "quick" else 2500
+    kinds = ["ok", "ok2", "skipbefore", "skipafter", "alwaysskip", "alwaysskipafter", "fatal", "nonfatal", "nonfatal_custom", "fatal_recovered", "hardfilter"]
+    n = 85 if tier == "quick" else 2500
     for i in range(n):
         k = rng.randrange(1, 5)
-        if i < 10:
+        if i < 11:
             chosen = [kinds[i]]
-        elif i < 16:
+        elif i < 17:
             chosen = [["alwaysskip"], ["alwaysskip", "alwaysskip"], ["alwaysskip", "alwaysskipafter"], ["skipbefore"], ["alwaysskipafter"],
-                      ["skipbefore", "alwaysskip"]][i - 10]
+                      ["skipbefore", "alwaysskip"]][i - 11]
         else:
             chosen = [rng.choice(kinds) for _ in range(k)]
         actions = {"act%d_%s" % (j, kd): sm_action(kd, rng) for j, kd in enumerate(chosen)}
@@ -1016,6 +1028,7 @@ def c04_bodies():
         "regexp_retry": [draw(g("StringMatching", expr="[a-c]\\b[ab -]"), "r"), draw(g("SliceOfBytesMatching", expr="^x?\\bfo[o ]\\b|[a-z]$"), "rb"), draw(g("Int8"), "t")],
         "sm2": [op("repeat", actions={"left": [draw(g("Bool"), "b")], "right": [draw(g("Byte"), "c")]}), draw(g("Int8"), "after")],
         "custom_hard": t_custom_hard()[:-1],
+        "sm_hard": t_sm_hard()[:-1],
         "custom_fatal": [draw(g("Int8"), "p"), draw(g("Custom", elem=g("Int16"), body=[draw(IntRange(0, 9), "a", "a"), iff("a", "le", 1, [op("skip")]),
                                                                                          draw(g("Int16"), "w"), op("fatalf", site=3)]), "c")],
         "filter_panics": [draw(g("Int8"), "p"), draw(g("Filter", elem=IntRange(0, 1000), pred="boom"), "f"), draw(g("Filter", elem=IntRange(4, 4), pred="boom"), "f2")],
@@ -1098,6 +1111,7 @@ def c13(tier, seed):
                                   op("cleanup", body=[draw(g("Uint64"), "late"), draw(g("Uint64"), "later")])],
         "cleanups_skip": lambda: [op("cleanup", body=[op("errorf", text="first registered")]), draw(g("Byte"), "x", "x"),
                                   op("cleanup", body=[iff("x", "mod2", 0, [op("skip")])]), op("cleanup", body=[iff("x", "ge", 200, [op("panic", val="error", site=1)])])],
+        "sm_hard": lambda: t_sm_hard()[:-1],
         "sm_all_skip": lambda: [op("repeat", actions={"s1": [draw(g("Byte"), "q"), op("skip")], "s2": [draw(g("Bool"), "w"), draw(g("Bool"), "w2"), op("skip")]},
                                    inv=[op("ctx")]), draw(g("Int8"), "after")],
         "distinct_dups": lambda: [draw(g("SliceOfNDistinct", elem=IntRange(0, 1), minLen=0, maxLen=5), "d"), draw(g("MapOfN", key=g("Bool"), val=g("Bool"), minLen=1, maxLen=3), "m"),
